@@ -90,8 +90,8 @@ def check_token(part, tok, section):
         what = "wrong type/raises" if err else "wrong value"
         tags = {"class": classify(tok), "what": what}
         tags.update(lowering_cause(tok))
-        part.violation("literal", {"literal": tok, "section": section},
-                       "%s literal: %s" % (classify(tok), what), tags,
+        sig = "integer literal: does not push the integer it spells" if classify(tok) == "integer" else "%s literal: %s" % (classify(tok), what)
+        part.violation("literal", {"literal": tok, "section": section}, sig, tags,
                        str(want), err or str(got), size=len(tok))
 
 
@@ -149,9 +149,24 @@ def _prog_shard(strings):
         else:
             got = [exact(v) for v in r.stack]
         if got != want:
-            part.violation("program", {"text": s}, "adjacent literals: stack differs from the DFA split values",
-                           {}, [str(x) for x in want], got if isinstance(got, str) else [str(x) for x in got],
-                           size=len(s) + 100)
+            # if every wrong position is an integer token whose own (single-literal) lowering is the known library-call
+            # behaviour, this is that finding again, not a splitting problem: report it under the literal's signature
+            toks = dfa_split(s)
+            causes = []
+            if isinstance(got, list) and len(got) == len(want):
+                for t, g, w in zip(toks, got, want):
+                    if g != w:
+                        causes.append(lowering_cause(t) if classify(t) == "integer" else {"value_is_librarys_own": False})
+            if causes and all(c.get("value_is_librarys_own") for c in causes):
+                tags = {"class": "integer", "what": "wrong value"}
+                tags.update(causes[0])
+                part.violation("literal", {"literal": s, "section": "adjacent_programs"},
+                               "integer literal: does not push the integer it spells", tags,
+                               [str(x) for x in want], [str(x) for x in got], size=len(s) + 100)
+            else:
+                part.violation("program", {"text": s}, "adjacent literals: stack differs from the DFA split values",
+                               {}, [str(x) for x in want], got if isinstance(got, str) else [str(x) for x in got],
+                               size=len(s) + 100)
     part.section("adjacent_programs", strings=len(strings))
     return part.data()
 
